@@ -153,6 +153,31 @@ func c19Schemas() []func() *c19Schema {
 			return s
 		},
 		func() *c19Schema {
+			s := &c19Schema{name: "Slice(Slice(Slice(Float64))).Default(three levels).PostTransform(mutate the innermost rows)"}
+			def := [][][]float64{{{1, 2}, {3, 4}}, {{5, 6}}}
+			own(&s.owned, "three-level slice default", def)
+			mut := func(p any, ctx z.Ctx) error {
+				d := p.(*[][][]float64)
+				for i := range *d {
+					for j := range (*d)[i] {
+						for k := range (*d)[i][j] {
+							(*d)[i][j][k] = 100
+						}
+						(*d)[i][j] = append((*d)[i][j], 7)
+					}
+				}
+				return nil
+			}
+			sc := z.Slice(z.Slice(z.Slice(z.Float64()))).Default(def).PostTransform(mut)
+			own(&s.objects, "schema object", sc)
+			s.events = []c19Event{
+				{"Validate(nil) default taken", func() (string, any) { var d [][][]float64; m := sc.Validate(&d); return c19Obs(m, d), d }},
+				{"Validate(empty) default taken", func() (string, any) { d := [][][]float64{}; m := sc.Validate(&d); return c19Obs(m, d), d }},
+				{"Parse(nil) default taken", func() (string, any) { var d [][][]float64; m := sc.Parse(nil, &d); return c19Obs(m, d), d }},
+			}
+			return s
+		},
+		func() *c19Schema {
 			s := &c19Schema{name: "Ptr(Slice(String).Default).NotNil + Slice.Contains(param) + Int.OneOf"}
 			def := []string{"a", "b"}
 			nums := []int{1, 2, 3}
@@ -454,7 +479,7 @@ func init() {
 		ID:    "C19",
 		Rule:  "one execution = one sequence of ≤depth calls (Parse/Validate, absent/present inputs given as maps, []any, typed slices, structs, pointers) under {stock formatter, stock formatter over templates that mention {{value}}} on ONE schema object whose PostTransforms overwrite and append to their destination; after every call: deep snapshot (incl. hidden capacity) of every value handed to a builder (slice/nested defaults, OneOf lists, Contains params) and of every input is unchanged, the schema object itself (every field at any depth, incl. each test's parameter map) is unchanged, the destination shares no backing array with them, and a repeated call observes exactly what its first occurrence observed; every sequence is non-trivial; distinct = distinct (schema, call sequence). plus " + callsRule + ". plus " + layoutRule,
 		Floor: 20,
-		Bound: func(tier string) string { return fmt.Sprintf("all call sequences of length ≤%d over 9 schema families, every field visit order", c19Depth(tier)) },
+		Bound: func(tier string) string { return fmt.Sprintf("all call sequences of length ≤%d over 10 schema families, every field visit order", c19Depth(tier)) },
 		Assumptions: []string{"mutating callbacks only write through the pointer they are given"},
 		Items: func(tier string) []Item {
 			var items []Item
